@@ -17,7 +17,15 @@ for d in sorted(glob.glob(os.path.join(V, "seeded", "*", ""))):
         got = "%s (exit %s; %s runs)" % (cl, r["exit"], r["runs"])
     else:
         got = "(not re-run)"
-    first = "missed; " + m["caught"]["result"].split("Added:", 1)[1].split(" Now exit")[0].strip() if "NOT caught" in m["caught"]["result"] and "Added:" in m["caught"]["result"] else ("missed, then strengthened (see meta.json)" if "NOT caught" in m["caught"]["result"] else "caught")
+    cr = m["caught"]["result"]
+    if "Added" in cr and ("NOT caught" in cr or "first attempt:" in cr):
+        first = ("missed; " if "NOT caught" in cr else "weak (" + cr.split("first attempt:", 1)[1].split(".")[0].strip() + "); ") + re.split(r"Added[^:]*:", cr, 1)[1].split(" Now ")[0].strip()
+    elif "NOT reported" in cr:
+        first = "missed by the check of its own property; reported by the check named in meta.json (`check_property`), which owns the clause it violates first"
+    elif "NOT caught" in cr:
+        first = "missed, then strengthened (see meta.json)"
+    else:
+        first = "caught"
     rows.append("| %s | %s | %s | %s |" % (cid, m["summary"].replace("|", "/"), got, first.replace("|", "/")))
 s = open(os.path.join(V, "DESIGN.md")).read()
 b, e = "<!-- CATCH-MATRIX-BEGIN -->", "<!-- CATCH-MATRIX-END -->"
